@@ -6,8 +6,9 @@
 (*         kind carrying exactly that text, followed by EOF                                         *)
 (*   Pair  two inputs that differ only in the letter case of keywords / literal type names          *)
 (*         (var = "case") or in the amount of white space between two tokens ("ws": n>=1 -> m>=1,   *)
-(*         "ws0"/"ws1": 0 -> m>=1): same token kinds, same texts up to surrounding white space      *)
-(*         (and letter case for "case")                                                             *)
+(*         "ws1": none around punctuation -> one): same token kinds, same texts up to surrounding   *)
+(*         white space (and letter case for "case").  A filter function and its "(" are written     *)
+(*         together in both texts (the code base requires "latest (" to be rejected).               *)
 (* Never blocks; prints <<"REJECT", line, "C16", class>> / <<"OPEN", ...>>.                          *)
 EXTENDS LexerStream, Json, IOUtils
 
